@@ -49,6 +49,8 @@ func Harvest(maxLen int, dirs ...string) []Item {
 			return nil
 		})
 	}
-	sort.Slice(out, func(i, j int) bool { return out[i].Src < out[j].Src || out[i].Src == out[j].Src && out[i].Text < out[j].Text })
+	sort.Slice(out, func(i, j int) bool {
+		return out[i].Src < out[j].Src || out[i].Src == out[j].Src && out[i].Text < out[j].Text
+	})
 	return out
 }
